@@ -4,6 +4,9 @@
 import AJ.Model.JD
 import AJ.Model.MD
 import AJ.Lemmas.FilterId
+import AJ.Lemmas.ProjectSim
+import AJ.Lemmas.ProjectState
+import AJ.Props.C01
 namespace C11
 open JD
 
@@ -108,6 +111,289 @@ theorem json_scalar_filter_null (cfg : Cfg) (L : Nat) (v : Val) (input : List By
   exact ⟨fparseVariant_closed _ _ _ _ (by rw [allowArray_doc, hv, ha]; rfl) (by rw [allowObject_doc, hv, ho]; rfl) hv,
          fparseVariant_closed _ _ _ _ rfl rfl rfl⟩
 
+/-! ## Filtering = projecting the unfiltered result, on every valid JSON text and for every filter
+
+`Spec.Filter.project` (AJ/Spec/Filter.lean) is the projection of the property text. The helper lemmas are in
+AJ/Lemmas/Project.lean (algebra of `project`), ProjectSkip.lean (the skipping routines consume what the parsing
+routines consume), ProjectDrop.lean (a refused kind = skipping), ProjectSim.lean (induction on derivations). -/
+section Projection
+open Spec.Json Spec.Filter
+set_option linter.unusedSimpArgs false
+
+/-- **The skip simulation.** On a value of the RFC grammar, from any parser position standing on
+    `w ++ t ++ rest` (white space, the value, anything), the skipping routine and the parsing routine both
+    succeed and end in literally THE SAME STATE `s'`: latch unloaded, `rest` unread, `|w| + |t|` more bytes
+    taken; after a number the latch is LOADED, in both, with the byte that follows the literal (`Post`).
+    `skipVariant` enforces the nesting limit `L` like `parseVariant`. (`Pos` covers both an unloaded latch and
+    a latch that already holds the first byte; `decodeUnicode` is needed by the parsing side only, see
+    `JD.skip_value`.) -/
+theorem skip_consumes_like_parse (cfg : Cfg) (hu : cfg.decodeUnicode = true) {L : Nat} {t : List Byte} {v : Val}
+    (h : Value cfg L t v) (fuel : Nat) (w rest : List Byte) (s : St) (p : Nat) (f : Bool)
+    (hw : Ws w) (hs : Pos s (w ++ (t ++ rest)) p f) (hfuel : w.length + t.length + 1 ≤ fuel)
+    (hd : NumLit t → Delim cfg rest) :
+    ∃ s', parseVariant cfg fuel L s = (.ok, v, s') ∧ skipVariant cfg fuel L s = (.ok, s') ∧
+      Post s' rest (p + w.length + t.length) (isNumberVal v) :=
+  skip_same_state hu h fuel w rest s p f hw hs hfuel hd
+
+/-- the same from an unloaded latch, with the resulting latch spelled out (the form of `C01.value_complete`) -/
+theorem skip_consumes_like_parse_latch (cfg : Cfg) (hu : cfg.decodeUnicode = true) {L : Nat} {t : List Byte} {v : Val}
+    (h : Value cfg L t v) (fuel : Nat) (w rest : List Byte) (s : St)
+    (hw : Ws w) (h1 : s.l.loaded = false) (h2 : s.l.unread = w ++ t ++ rest)
+    (hfuel : w.length + t.length + 1 ≤ fuel) (hd : NumLit t → Delim cfg rest) :
+    ∃ s', parseVariant cfg fuel L s = (.ok, v, s') ∧ skipVariant cfg fuel L s = (.ok, s') ∧ s'.found = true ∧
+      (if isNumberVal v then
+         s'.l.loaded = true ∧ s'.l.cur = rest.headD 0 ∧ s'.l.unread = rest.tail ∧
+         s'.l.pos = s.l.pos + w.length + t.length + min 1 rest.length
+       else s'.l.loaded = false ∧ s'.l.unread = rest ∧ s'.l.pos = s.l.pos + w.length + t.length) := by
+  have hs : At s (w ++ (t ++ rest)) s.l.pos s.found := ⟨h1, by rw [h2, List.append_assoc], rfl, rfl⟩
+  obtain ⟨s', hp, hk, hpost⟩ := skip_same_state hu h fuel w rest s s.l.pos s.found hw hs.pos hfuel hd
+  refine ⟨s', hp, hk, ?_⟩
+  unfold Post at hpost
+  split at hpost
+  · rename_i hn
+    obtain ⟨f1, f2, f3, f4, f5⟩ := hpost.fields
+    exact ⟨f5, by simp only [hn, ↓reduceIte]; exact ⟨f1, f2, f3, f4⟩⟩
+  · rename_i hn
+    exact ⟨hpost.2.2.2, by simp only [hn, ↓reduceIte]; exact ⟨hpost.1, hpost.2.1, hpost.2.2.1⟩⟩
+
+/-- **Value level**: from any parser position standing on `w ++ t ++ rest`, the filtered parser under ANY filter
+    returns `Ok` and the projection of the denoted document, and ends where the unfiltered parser ends. -/
+theorem value_projection (cfg : Cfg) (hu : cfg.decodeUnicode = true) {L : Nat} {t : List Byte} {v : Val}
+    (h : Value cfg L t v) (flt : Flt) (fuel : Nat) (w rest : List Byte) (s : St) (p : Nat) (f : Bool)
+    (hw : Ws w) (hs : Pos s (w ++ (t ++ rest)) p f) (hfuel : w.length + t.length + 1 ≤ fuel)
+    (hd : NumLit t → Delim cfg rest) :
+    ∃ s', fparseVariant cfg fuel L flt s = (.ok, project flt v, s') ∧
+      Post s' rest (p + w.length + t.length) (isNumberVal v) :=
+  fcomplete_value hu h flt fuel w rest s p f hw hs hfuel hd
+
+/-- what the unfiltered run answers on a valid text (code, document, bytes taken) -/
+theorem run_doc (cfg : Cfg) (hu : cfg.decodeUnicode = true) {L : Nat} {w1 body w2 : List Byte} {v : Val}
+    (hw1 : Ws w1) (hw2 : Ws w2) (hv : Value cfg L body v) :
+    JD.run cfg L (w1 ++ body ++ w2) =
+      (.ok, v, w1.length + body.length + (if isNumberVal v then min 1 w2.length else 0)) := by
+  cases hnum : isNumberVal v with
+  | false => rw [C01.run_value cfg hu hv hnum w1 w2 hw1]; rfl
+  | true =>
+    cases hv with
+    | num _ _ hl =>
+      rw [C01.run_number cfg hl w1 w2 hw1 (delim_ws_end cfg hw2)]
+      have : (w2.headD 0 != 0 && !isWs (w2.headD 0)) = false := by
+        cases w2 with
+        | nil => rfl
+        | cons c r => have := (ws_head hw2).2; simp [this]
+      simp only [this, Bool.false_eq_true, ↓reduceIte]
+    | _ => simp [isNumberVal] at hnum
+
+/-- **C11 (main theorem): filtering a valid JSON text = projecting its document onto the filter.**
+    For every text `t` of the RFC 8259 grammar within the limits of the deserializer (`Spec.Json.Doc`, the
+    hypothesis under which C01 proves that the unfiltered run succeeds with `v`), and EVERY filter — `AllowAll`,
+    unbound, or any filter document whatsoever — the filtered run succeeds, yields exactly `project flt v`, and
+    takes the same number of bytes from the reader as the unfiltered run.
+    Repeated keys are covered (no distinctness hypothesis): `v` is the merged object (`lastWins`, first position
+    kept, last value wins), the filtered deserializer merges only among the members it keeps, and the two agree
+    because whether a member is kept and how it is filtered depend on its key only
+    (`projectMembers_lastWins`). -/
+theorem json_projection (cfg : Cfg) (hu : cfg.decodeUnicode = true) {L : Nat} {t : List Byte} {v : Val}
+    (h : Doc cfg L t v) (flt : Flt) :
+    JD.frun cfg L flt t = (.ok, project flt v, (JD.run cfg L t).2.2) := by
+  obtain ⟨w1, body, w2, rfl, hw1, hw2, hv⟩ := h
+  rw [run_doc cfg hu hw1 hw2 hv]
+  have hfrun : JD.frun cfg L flt (w1 ++ body ++ w2) =
+      (match fparseVariant cfg (2 * (w1 ++ body ++ w2).length + 4) L flt { l := { unread := w1 ++ body ++ w2 } } with
+       | (.ok, v, s) =>
+         if s.l.cur != 0 && !isWs s.l.cur && isNumberVal v then (.invalid, v, s.l.pos) else (.ok, v, s.l.pos)
+       | (e, v, s) => (e, v, s.l.pos)) := rfl
+  have hs : At ({ l := { unread := w1 ++ body ++ w2 } } : St) (w1 ++ (body ++ w2)) 0 false :=
+    ⟨rfl, by simp, rfl, rfl⟩
+  obtain ⟨s', hp, hpost⟩ := fcomplete_value hu hv flt (2 * (w1 ++ body ++ w2).length + 4) w1 w2 _ 0 false hw1 hs.pos
+    (by simp; omega) (fun _ => delim_ws_end cfg hw2)
+  rw [hfrun, hp]
+  unfold Post at hpost
+  cases hn : isNumberVal v with
+  | false =>
+    simp only [hn, Bool.false_eq_true, ↓reduceIte] at hpost
+    have hn' : isNumberVal (project flt v) = false := by
+      cases hq : isNumberVal (project flt v) with
+      | false => rfl
+      | true => rw [isNumberVal_project_le flt v hq] at hn; cases hn
+    simp only [hn', Bool.and_false, Bool.false_eq_true, ↓reduceIte, hpost.2.2.1]
+    simp
+  | true =>
+    simp only [hn, ↓reduceIte] at hpost
+    obtain ⟨_, f2, _, f4, _⟩ := hpost.fields
+    have : (s'.l.cur != 0 && !isWs s'.l.cur) = false := by
+      rw [f2]
+      cases w2 with
+      | nil => rfl
+      | cons c r => have := (ws_head hw2).2; simp [this]
+    simp only [this, Bool.false_and, Bool.false_eq_true, ↓reduceIte, f4]
+    simp
+
+/-- the three components separately -/
+theorem json_projection_components (cfg : Cfg) (hu : cfg.decodeUnicode = true) {L : Nat} {t : List Byte} {v : Val}
+    (h : Doc cfg L t v) (flt : Flt) :
+    (JD.frun cfg L flt t).1 = .ok ∧ (JD.frun cfg L flt t).2.1 = project flt (JD.run cfg L t).2.1 ∧
+    (JD.frun cfg L flt t).2.2 = (JD.run cfg L t).2.2 := by
+  rw [json_projection cfg hu h flt, (C01.valid_json cfg hu h).2]
+  exact ⟨rfl, rfl, rfl⟩
+
+/-! ### What the projection is, clause by clause (the property text) -/
+
+/-- "true keeps a value entirely" -/
+theorem project_transparent (f : Flt) (h : Transparent f) : ∀ v, project f v = v := by
+  have key : ∀ n (v : Val), sizeOf v ≤ n → ∀ f, Transparent f → project f v = v := by
+    intro n
+    induction n with
+    | zero => intro v hv; cases v <;> simp at hv <;> omega
+    | succ n ih =>
+      intro v hv f h
+      cases v with
+      | arr xs =>
+        simp only [project, h.allowArray, ↓reduceIte, h.subIdx_eq]
+        congr 1
+        induction xs with
+        | nil => simp only [projectElems]
+        | cons x xs ihx =>
+          simp only [Val.arr.sizeOf_spec, List.cons.sizeOf_spec] at hv
+          simp only [projectElems, h.allow, ↓reduceIte]
+          rw [ih x (by omega) f h, ihx (by simp only [Val.arr.sizeOf_spec]; omega)]
+      | obj ms =>
+        simp only [project, h.allowObject, ↓reduceIte]
+        congr 1
+        induction ms with
+        | nil => simp only [projectMembers]
+        | cons kx ms ihm =>
+          obtain ⟨k, x⟩ := kx
+          simp only [Val.obj.sizeOf_spec, List.cons.sizeOf_spec, Prod.mk.sizeOf_spec] at hv
+          simp only [projectMembers, h.allow, ↓reduceIte, h.subKey_eq]
+          rw [ih x (by omega) f h, ihm (by simp only [Val.obj.sizeOf_spec]; omega)]
+      | null => simp only [project]
+      | _ => simp only [project, h.allowValue, ↓reduceIte]
+  intro v
+  exact key _ v (Nat.le_refl _) f h
+
+/-- "a null or false entry removes the member": a member whose own filter `filter[key]` is not true-ish is absent
+    from the projection — in particular (see `subKey_false`, `subKey_null`) when the entry of its key is `false`,
+    or is `null`/missing and there is no true-ish `"*"` entry. -/
+theorem null_or_false_removes (f : Flt) (ms : List (List Byte × Val)) (k : List Byte)
+    (h : (f.subKey k).allow = false) : ∀ x, (k, x) ∉ projectMembers f ms := by
+  intro x
+  induction ms with
+  | nil => simp only [projectMembers]; exact List.not_mem_nil
+  | cons kv ms ih =>
+    obtain ⟨k', v'⟩ := kv
+    cases ha : (f.subKey k').allow
+    · simpa only [projectMembers, ha, Bool.false_eq_true, ↓reduceIte] using ih
+    · simp only [projectMembers, ha, ↓reduceIte, List.mem_cons, not_or]
+      refine ⟨?_, ih⟩
+      intro e
+      have : k = k' := congrArg Prod.fst e
+      rw [this, ha] at h; cases h
+
+/-- an entry `false` (or `0`, `0.0`) removes the member, whatever `"*"` says -/
+theorem subKey_false (fm : List (List Byte × Val)) (k : List Byte) (e : Val)
+    (h : lookupKey fm k = some e) (hn : isNullOpt (some e) = false) (ht : truthy e = false) :
+    ((Flt.doc (some (.obj fm))).subKey k).allow = false := by
+  simp only [Flt.subKey, isTrueVal, Bool.false_eq_true, ↓reduceIte, h, hn, Flt.allow, ht]
+
+/-- an entry `null`, like a missing entry, defers to the `"*"` entry: the member is removed iff `"*"` is missing or
+    not true-ish. (So the clause "a null entry removes the member" of the property text holds only in the absence
+    of a true-ish `"*"` entry: `{"a":null,"*":true}` KEEPS the member `a`.) -/
+theorem subKey_null (fm : List (List Byte × Val)) (k : List Byte)
+    (h : isNullOpt (lookupKey fm k) = true) :
+    (Flt.doc (some (.obj fm))).subKey k = .doc (lookupKey fm [0x2A]) := by
+  simp only [Flt.subKey, isTrueVal, Bool.false_eq_true, ↓reduceIte, h]
+
+/-- `"*"` stands for any key that has no entry of its own -/
+theorem star_is_wildcard (fm : List (List Byte × Val)) (k : List Byte) (h : lookupKey fm k = none) :
+    (Flt.doc (some (.obj fm))).subKey k = .doc (lookupKey fm [0x2A]) :=
+  subKey_null fm k (by rw [h]; rfl)
+
+/-- a key with a non-null entry uses that entry -/
+theorem subKey_listed (fm : List (List Byte × Val)) (k : List Byte) (e : Val)
+    (h : lookupKey fm k = some e) (hn : isNullOpt (some e) = false) :
+    (Flt.doc (some (.obj fm))).subKey k = .doc (some e) := by
+  simp only [Flt.subKey, isTrueVal, Bool.false_eq_true, ↓reduceIte, h, hn]
+
+/-- an object filter, member by member: kept iff the entry (own, else `"*"`) is true-ish, filtered by that entry -/
+theorem object_filter (fm : List (List Byte × Val)) (ms : List (List Byte × Val)) :
+    project (.doc (some (.obj fm))) (.obj ms) =
+      .obj (ms.filterMap (fun kv =>
+        let e := if isNullOpt (lookupKey fm kv.1) then lookupKey fm [0x2A] else lookupKey fm kv.1
+        if (Flt.doc e).allow then some (kv.1, project (.doc e) kv.2) else none)) := by
+  rw [project_obj]
+  have hsub : ∀ k, (Flt.doc (some (.obj fm))).subKey k =
+      .doc (if isNullOpt (lookupKey fm k) then lookupKey fm [0x2A] else lookupKey fm k) := by
+    intro k
+    cases hq : isNullOpt (lookupKey fm k)
+    · simp only [Flt.subKey, isTrueVal, Bool.false_eq_true, ↓reduceIte, hq]
+    · simp only [Flt.subKey, isTrueVal, Bool.false_eq_true, ↓reduceIte, hq]
+  simp only [hsub]
+  rfl
+
+theorem filterMap_none' {α β} (xs : List α) : xs.filterMap (fun _ => (none : Option β)) = [] := by
+  induction xs with
+  | nil => rfl
+  | cons x xs ih => simp only [List.filterMap_cons, ih]
+theorem filterMap_some' {α β} (g : α → β) (xs : List α) : xs.filterMap (fun x => some (g x)) = xs.map g := by
+  induction xs with
+  | nil => rfl
+  | cons x xs ih => simp only [List.filterMap_cons, List.map_cons, ih]
+
+/-- "an array filter applies its first element to every element"; a `null`/`false` first element removes them all -/
+theorem array_filter_first_element (e : Val) (r xs : List Val) :
+    project (.doc (some (.arr (e :: r)))) (.arr xs) =
+      .arr (if truthy e then xs.map (project (.doc (some e))) else []) := by
+  rw [project_arr]
+  have hA : (Flt.doc (some (.arr (e :: r)))).allowArray = true := rfl
+  cases ht : truthy e
+  · have hs : (Flt.doc (some (.arr (e :: r)))).subIdx.allow = false := by
+      simp only [Flt.subIdx, isTrueVal, Bool.false_eq_true, ↓reduceIte]
+      split
+      · rfl
+      · exact ht
+    simp only [hA, hs, ↓reduceIte, Bool.false_eq_true, filterMap_none']
+  · have hne : isNullOpt (some e) = false := by
+      cases e <;> first | rfl | exact Bool.noConfusion ht
+    have hs : (Flt.doc (some (.arr (e :: r)))).subIdx = .doc (some e) := by
+      simp only [Flt.subIdx, isTrueVal, Bool.false_eq_true, ↓reduceIte, hne]
+    have ha : (Flt.doc (some e)).allow = true := ht
+    simp only [hA, hs, ha, ↓reduceIte, filterMap_some']
+
+/-- the empty array filter `[]` keeps the array and removes every element -/
+theorem array_filter_empty (xs : List Val) : project (.doc (some (.arr []))) (.arr xs) = .arr [] := by
+  rw [project_arr]
+  have hA : (Flt.doc (some (.arr []))).allowArray = true := rfl
+  have hs : (Flt.doc (some (.arr []))).subIdx.allow = false := rfl
+  simp only [hA, hs, ↓reduceIte, Bool.false_eq_true, filterMap_none']
+
+/-- "a kept value whose kind the filter does not accept becomes null" -/
+theorem kind_not_accepted (f : Flt) :
+    (∀ xs, f.allowArray = false → project f (.arr xs) = .null) ∧
+    (∀ ms, f.allowObject = false → project f (.obj ms) = .null) ∧
+    (∀ v, v.isArr = false → v.isObj = false → f.allowValue = false → project f v = .null) := by
+  refine ⟨fun xs h => by simp only [project, h, Bool.false_eq_true, ↓reduceIte],
+    fun ms h => by simp only [project, h, Bool.false_eq_true, ↓reduceIte], fun v h1 h2 h => ?_⟩
+  rw [project_scalar f v h1 h2, h]; rfl
+
+/-- end to end: the array clause on the deserializer -/
+theorem json_array_filter (cfg : Cfg) (hu : cfg.decodeUnicode = true) {L : Nat} {t : List Byte} {xs : List Val}
+    (h : Doc cfg L t (.arr xs)) (e : Val) (r : List Val) :
+    (JD.frun cfg L (.doc (some (.arr (e :: r)))) t).2.1 =
+      .arr (if truthy e then xs.map (project (.doc (some e))) else []) := by
+  rw [json_projection cfg hu h, array_filter_first_element]
+
+/-- end to end: a member with a non-true-ish filter entry is not in the filtered object -/
+theorem json_member_removed (cfg : Cfg) (hu : cfg.decodeUnicode = true) {L : Nat} {t : List Byte}
+    {ms : List (List Byte × Val)} (h : Doc cfg L t (.obj ms)) (f : Flt) (hO : f.allowObject = true)
+    (k : List Byte) (hk : (f.subKey k).allow = false) :
+    ∃ ms', (JD.frun cfg L f t).2.1 = .obj ms' ∧ ∀ x, (k, x) ∉ ms' := by
+  refine ⟨projectMembers f ms, ?_, null_or_false_removes f ms k hk⟩
+  rw [json_projection cfg hu h]
+  simp only [project, hO, ↓reduceIte]
+
+end Projection
+
 /-! ## Non-vacuity -/
 
 /-- `[1,{"a":2}]` -/
@@ -165,3 +451,126 @@ example : (MD.readArray {} 16 10 .all false 2 { unread := m1.drop 1 } [.bool tru
   (no_fault_msgpack_partial {} 16 10 .all _).2.1 2 _
 
 end C11
+
+/-! ## Non-vacuity of the projection theorems: explicit texts, derivations, filters -/
+namespace C11.ProjExamples
+open JD Spec.Json Spec.Filter C01.Examples
+
+/-- `[1,-0 , 2.5e3]` as a document -/
+theorem arr_doc : Doc c0 1 arrText (.arr [.num (.uint 1), .num (.sint 0), .num (.f32 0x451C4000)]) :=
+  ⟨[], arrText, [], rfl, by decide, by decide, arr_value⟩
+
+theorem run_docText : (JD.run c0 2 docText).2.2 = 30 := by decide +kernel
+theorem run_arrText : (JD.run c0 1 arrText).2.2 = 14 := by decide +kernel
+
+/-! ### ` {"k":[1,-0 , 2.5e3],"k":"\n"}` + LF — a REPEATED key; the document is `{"k":"\n"}` -/
+
+/-- the filter `{"k":[true]}`: both occurrences of `k` are kept and filtered by `[true]`; the array survives the
+    filter but is overwritten by the string, which `[true]` does not accept: `{"k":null}` -/
+def fK : Flt := .doc (some (.obj [([0x6B], .arr [.bool true])]))
+example : JD.frun c0 2 fK docText = (.ok, .obj [([0x6B], .null)], 30) := by
+  rw [json_projection c0 rfl doc_value fK, run_docText]; rfl
+-- the same by evaluation of the model, independently of the theorem
+example : (JD.frun c0 2 fK docText).1 = .ok ∧ (JD.frun c0 2 fK docText).2.2 = 30 ∧
+    (match (JD.frun c0 2 fK docText).2.1 with | .obj [([0x6B], .null)] => true | _ => false) = true := by
+  decide +kernel
+
+/-- `{"*":true}`: the key `k` is not listed, the wildcard entry keeps it entirely -/
+def fStar : Flt := .doc (some (.obj [([0x2A], .bool true)]))
+example : JD.frun c0 2 fStar docText = (.ok, .obj [([0x6B], .str [0x0A])], 30) := by
+  rw [json_projection c0 rfl doc_value fStar, run_docText]; rfl
+example : fStar.subKey [0x6B] = .doc (some (.bool true)) := star_is_wildcard _ _ rfl
+
+/-- `{"k":false,"*":true}`: the entry `false` removes the member, whatever `"*"` says -/
+def fFalse : Flt := .doc (some (.obj [([0x6B], .bool false), ([0x2A], .bool true)]))
+example : JD.frun c0 2 fFalse docText = (.ok, .obj [], 30) := by
+  rw [json_projection c0 rfl doc_value fFalse, run_docText]; rfl
+example : (fFalse.subKey [0x6B]).allow = false := subKey_false _ _ (.bool false) rfl rfl rfl
+example : ∃ ms', (JD.frun c0 2 fFalse docText).2.1 = .obj ms' ∧ ∀ x, ([0x6B], x) ∉ ms' :=
+  json_member_removed c0 rfl doc_value fFalse rfl [0x6B] rfl
+
+/-- `{"k":null,"*":true}`: an entry `null` is like no entry — the wildcard applies and the member is KEPT -/
+def fNull : Flt := .doc (some (.obj [([0x6B], .null), ([0x2A], .bool true)]))
+example : JD.frun c0 2 fNull docText = (.ok, .obj [([0x6B], .str [0x0A])], 30) := by
+  rw [json_projection c0 rfl doc_value fNull, run_docText]; rfl
+example : (JD.frun c0 2 fNull docText).1 = .ok ∧
+    (match (JD.frun c0 2 fNull docText).2.1 with | .obj [([0x6B], .str [0x0A])] => true | _ => false) = true := by
+  decide +kernel
+/-- `{"k":null}`: without a wildcard the `null` entry removes the member -/
+example : JD.frun c0 2 (.doc (some (.obj [([0x6B], .null)]))) docText = (.ok, .obj [], 30) := by
+  rw [json_projection c0 rfl doc_value, run_docText]; rfl
+
+/-- an array filter on an object, a scalar filter other than `true`, the unbound filter: `null`, all bytes taken -/
+example : JD.frun c0 2 (.doc (some (.arr [.bool true]))) docText = (.ok, .null, 30) := by
+  rw [json_projection c0 rfl doc_value, run_docText]; rfl
+example : JD.frun c0 2 (.doc (some (.num (.uint 2)))) docText = (.ok, .null, 30) := by
+  rw [json_projection c0 rfl doc_value, run_docText]; rfl
+example : JD.frun c0 2 (.doc none) docText = (.ok, .null, 30) := by
+  rw [json_projection c0 rfl doc_value, run_docText]; rfl
+
+/-! ### `[1,-0 , 2.5e3]` -/
+
+/-- `[true]` keeps every element, `[false]`, `[null]` and `[]` remove them all, `[{"x":true}]` nulls them -/
+example : JD.frun c0 1 (.doc (some (.arr [.bool true]))) arrText =
+    (.ok, .arr [.num (.uint 1), .num (.sint 0), .num (.f32 0x451C4000)], 14) := by
+  rw [json_projection c0 rfl arr_doc, run_arrText]; rfl
+example : JD.frun c0 1 (.doc (some (.arr [.bool false, .bool true]))) arrText = (.ok, .arr [], 14) := by
+  rw [json_projection c0 rfl arr_doc, run_arrText]; rfl
+example : JD.frun c0 1 (.doc (some (.arr [.null]))) arrText = (.ok, .arr [], 14) := by
+  rw [json_projection c0 rfl arr_doc, run_arrText]; rfl
+example : JD.frun c0 1 (.doc (some (.arr []))) arrText = (.ok, .arr [], 14) := by
+  rw [json_projection c0 rfl arr_doc, run_arrText]; rfl
+example : JD.frun c0 1 (.doc (some (.arr [.obj [([0x78], .bool true)]]))) arrText =
+    (.ok, .arr [.null, .null, .null], 14) := by
+  rw [json_projection c0 rfl arr_doc, run_arrText]; rfl
+example : (JD.frun c0 1 (.doc (some (.arr [.bool false, .bool true]))) arrText).1 = .ok ∧
+    (match (JD.frun c0 1 (.doc (some (.arr [.bool false, .bool true]))) arrText).2.1 with | .arr [] => true | _ => false) = true ∧
+    (match (JD.frun c0 1 (.doc (some (.arr [.obj [([0x78], .bool true)]]))) arrText).2.1 with
+      | .arr [.null, .null, .null] => true | _ => false) = true := by
+  decide +kernel
+/-- the array clause, end to end -/
+example : (JD.frun c0 1 (.doc (some (.arr [.bool false, .bool true]))) arrText).2.1 = .arr [] :=
+  json_array_filter c0 rfl arr_doc (.bool false) [.bool true]
+/-- an object filter on an array: `null` -/
+example : JD.frun c0 1 fStar arrText = (.ok, .null, 14) := by
+  rw [json_projection c0 rfl arr_doc, run_arrText]; rfl
+
+/-! ### the skip simulation on `[1,-0 , 2.5e3]` followed by `,7`: both routines end on the comma -/
+example : ∃ s', parseVariant c0 16 1 { l := { unread := arrText ++ [0x2C, 0x37] } } =
+      (.ok, .arr [.num (.uint 1), .num (.sint 0), .num (.f32 0x451C4000)], s') ∧
+    skipVariant c0 16 1 { l := { unread := arrText ++ [0x2C, 0x37] } } = (.ok, s') ∧ s'.found = true ∧
+    s'.l.loaded = false ∧ s'.l.unread = [0x2C, 0x37] ∧ s'.l.pos = 14 := by
+  obtain ⟨s', h1, h2, h3, h4⟩ := skip_consumes_like_parse_latch c0 rfl arr_value 16 [] [0x2C, 0x37]
+    { l := { unread := arrText ++ [0x2C, 0x37] } } (by decide) rfl rfl (by decide) (fun _ => by intro c r h; cases h; rfl)
+  exact ⟨s', h1, h2, h3, h4⟩
+-- by evaluation
+example : (skipVariant c0 16 1 { l := { unread := arrText ++ [0x2C, 0x37] } }).1 = .ok ∧
+    (skipVariant c0 16 1 { l := { unread := arrText ++ [0x2C, 0x37] } }).2.l.pos = 14 ∧
+    (parseVariant c0 16 1 { l := { unread := arrText ++ [0x2C, 0x37] } }).2.2.l.pos = 14 := by decide +kernel
+
+/-! ### `[1,{"a":2}]` (`C11.j1`) under `[{"a":true}]`: the number is not accepted by the object filter, the object is -/
+theorem n2 : NumLit [0x32] :=
+  ⟨by decide, [], [0x32], [], [], Or.inl rfl, Or.inr ⟨⟨by decide, by decide⟩, by decide⟩, Or.inl rfl, Or.inl rfl, rfl⟩
+theorem j1_doc : Doc c0 2 C11.j1 (.arr [.num (.uint 1), .obj [([0x61], .num (.uint 2))]]) := by
+  have hk : Body 0x22 [0x61] [0x61] := Body.plain 0x61 [] [] (by decide) (by decide) (by decide) Body.nil
+  have hobj : Value c0 1 [0x7B,0x22,0x61,0x22,0x3A,0x32,0x7D] (.obj [([0x61], .num (.uint 2))]) :=
+    Value.obj 0 [0x22,0x61,0x22,0x3A,0x32] [([0x61], .num (.uint 2))]
+      (Members.one 0 [] [0x61] [0x61] [] [] [0x32] _ [] (by decide) hk (by decide) (by decide) (by decide)
+        (Value.num 0 _ n2) (by decide))
+  refine ⟨[], C11.j1, [], rfl, by decide, by decide, ?_⟩
+  exact Value.arr 1 [0x31,0x2C,0x7B,0x22,0x61,0x22,0x3A,0x32,0x7D] _
+    (Elements.cons 1 [] [0x31] _ [] [0x7B,0x22,0x61,0x22,0x3A,0x32,0x7D] _ (by decide) (Value.num 1 _ n1) (by decide)
+      (Elements.one 1 [] [0x7B,0x22,0x61,0x22,0x3A,0x32,0x7D] _ [] (by decide) hobj (by decide)))
+example : JD.frun c0 2 (.doc (some (.arr [.obj [([0x61], .bool true)]]))) C11.j1 =
+    (.ok, .arr [.null, .obj [([0x61], .num (.uint 2))]], 11) := by
+  rw [json_projection c0 rfl j1_doc]
+  have : (JD.run c0 2 C11.j1).2.2 = 11 := by decide +kernel
+  rw [this]; rfl
+/-- `[{"a":false,"*":true}]`: the member `a` is removed, the object stays -/
+example : JD.frun c0 2 (.doc (some (.arr [.obj [([0x61], .bool false), ([0x2A], .bool true)]]))) C11.j1 =
+    (.ok, .arr [.null, .obj []], 11) := by
+  rw [json_projection c0 rfl j1_doc]
+  have : (JD.run c0 2 C11.j1).2.2 = 11 := by decide +kernel
+  rw [this]; rfl
+
+end C11.ProjExamples
